@@ -7,6 +7,20 @@ whatever order the map iteration takes.
 -/
 namespace UpfVerif.Core
 
+/-- the rule operations of a session's lifetime that touch PDR / URR bookkeeping -/
+inductive SOp
+  | createURR (ie : RuleIE) | updateURR (ie : RuleIE) | removeURR (ie : RuleIE) | queryURR (ie : RuleIE)
+  | createPDR (ie : RuleIE) | updatePDR (ie : RuleIE) | removePDR (ie : RuleIE)
+
+def SOp.apply (s : Sess) (c : Ctx) : SOp → Sess × Ctx
+  | .createURR ie => s.createURR ie c
+  | .updateURR ie => ((s.updateURR ie c).1, (s.updateURR ie c).2.1)
+  | .removeURR ie => ((s.removeURR ie c).1, (s.removeURR ie c).2.1)
+  | .queryURR ie => ((s.queryURR ie c).1, (s.queryURR ie c).2.1)
+  | .createPDR ie => s.createPDR ie c
+  | .updatePDR ie => ((s.updatePDR ie c).1, (s.updatePDR ie c).2.1)
+  | .removePDR ie => ((s.removePDR ie c).1, (s.removePDR ie c).2.1)
+
 /-! ### counting over association lists -/
 
 /-- number of entries whose value satisfies `P` -/
